@@ -190,6 +190,8 @@ def _eval_cfg(expr, features):
         return False
     if e == 'test':
         return False
+    if e == 'gb_dynarec_verif':
+        return False   # the Verus units verify the code as shipped (verification hooks compiled out)
     return None
 
 
@@ -387,6 +389,9 @@ def splice_fn(fn_text, spec, notes):
                 close = match_close(mb, k)
                 body = body[:close + 1] + '\n' + inv['after'].rstrip() + '\n' + body[close + 1:]
             body = body[:k] + ins + '\n      {' + bodyins + body[k + 1:]
+    if spec.get('exit'):
+        k = body.rstrip().rfind('}')
+        body = body[:k] + spec['exit'].rstrip() + '\n' + body[k:]
     if spec.get('entry'):
         body = '{\n' + spec['entry'].rstrip() + '\n' + body[1:]
     return header.rstrip() + ' ' + clauses + body if clauses else header + body
@@ -515,7 +520,7 @@ def process_template(path, name=None):
                         break
                     if d2.startswith('ret '):
                         spec['ret'] = d2[4:].strip(); cur = None
-                    elif d2 in ('requires', 'ensures', 'recommends', 'entry'):
+                    elif d2 in ('requires', 'ensures', 'recommends', 'entry', 'exit'):
                         spec[d2] = ''; cur = (d2,)
                     elif d2.startswith('decreases '):
                         spec['fn_decreases'] = d2[len('decreases '):]; cur = None
